@@ -59,21 +59,20 @@ Theorem done_monotone_edges_frozen :
 Proof. exact (fun tr s s' t H D => conj (run_done_mono tr s s' t H D) (run_edges_frozen tr s s' t H D)). Qed.
 Print Assumptions done_monotone_edges_frozen.
 
-(* a waiter is never stuck once the task it looks at is done, and can finish when its list is exhausted *)
+(* a waiter is never stuck: any enqueued, unprocessed task that is done can be processed, and when none is
+   left the wait can return *)
 Theorem wait_progress :
   forall tr s w ws, run init tr = Some s -> waiter s w = Some ws -> w_closed ws = false ->
-    match cur ws with
-    | Some u => done s u = true -> guard s (LWaitObserve w u (edges s u)) = true
-    | None => guard s (LWaitClosed w (w_root ws)) = true
-    end.
+    (forall u, pending ws u = true -> done s u = true -> guard s (LWaitObserve w u (edges s u)) = true) /\
+    ((forall u, pending ws u = false) -> guard s (LWaitClosed w (w_root ws)) = true).
 Proof. exact wait_progress_any. Qed.
 Print Assumptions wait_progress.
 
-(* the number of visits of one wait is bounded by the number of tasks reachable from its root *)
+(* the number of loop iterations of one wait is bounded by the number of tasks reachable from its root *)
 Theorem wait_work_bounded :
   forall tr s w ws univ, run init tr = Some s -> waiter s w = Some ws ->
     (forall u, reach s (w_root ws) u -> In u univ) ->
-    w_idx ws <= List.length (w_work ws) /\ List.length (w_work ws) <= List.length univ.
+    List.length (w_seen ws) <= List.length (w_work ws) /\ List.length (w_work ws) <= List.length univ.
 Proof. exact wait_work_bounded_any. Qed.
 Print Assumptions wait_work_bounded.
 
